@@ -295,9 +295,8 @@ class Projector(object):
         h = self.iso.isohybrid_mbr
         if h is None:
             return None
-        return {'efi': bool(h.efi), 'mac': bool(h.mac), 'part_entry': h.part_entry,
-                'sectors': h.geometry_sectors, 'heads': h.geometry_heads,
-                'ptype': h.part_type, 'offset': h.part_offset}
+        return dict((k, getattr(h, k, None)) for k in ('efi', 'mac', 'part_entry', 'geometry_sectors',
+                                                       'geometry_heads', 'part_offset'))
 
 
 NSORD = {'iso': 0, 'rrv': 1, 'jol': 2, 'udf': 3}
